@@ -6,6 +6,7 @@ import Mdsort.Model.Mime
 import Mdsort.Model.MimeEntity
 import Mdsort.Spec.Message
 import Mdsort.Spec.Mime
+import Mdsort.Proofs.Mime
 
 /-!
 Line-protocol driver: one request per line `<side> <op> <hexarg>*`, one response
@@ -95,10 +96,14 @@ def handleSpec (op : String) (args : List Bytes) : Option String :=
     | some _ => some (if Spec.rewriteOk m (pairs kvs) out then "OK" else "BAD")
   | "parts", [m] =>
     let e := Model.parseMessage m
+    if !Proofs.BoundaryOk (Gen.mimeDepthLimit + 1) e then some "NOTWF" else
     match Spec.parts Model.entity (Gen.mimeDepthLimit + 1) e with
     | none => some "NONE"
     | some ps => some (s!"P{ps.length}" ++ String.join (ps.map fun p => " " ++ dumpTable p ++ "|" ++ dumpBody (Spec.decodedBody Model.entity Gen.mimeDepthLimit p)))
-  | "body", [m] => some (dumpBody (Spec.decodedBody Model.entity Gen.mimeDepthLimit (Model.parseMessage m)))
+  | "body", [m] =>
+    let e := Model.parseMessage m
+    if !Proofs.BoundaryOk (Gen.mimeDepthLimit + 1) e then some "NOTWF" else
+    some (dumpBody (Spec.decodedBody Model.entity Gen.mimeDepthLimit e))
   | "unfold", [v] => some (toHex (Spec.unfold v))
   | _, _ => none
 
